@@ -55,5 +55,10 @@ Fixpoint latch_ok (err_before : option Z) (port_before : bool) (h : list (call *
             && oz_eqb (o_err ob) err_before && Nat.eqb (o_consumed ob) 0
        else true) &&
       (match err_before with Some e => oz_eqb (o_err ob) (Some e) | None => true end) &&
-      latch_ok (o_err ob) (o_port ob) t
+      (* after a disconnect, and after a reboot / bootload that reports success, the object is not connected whatever became of the port object *)
+      (let port_after := match k with
+                         | CDisconnect => false
+                         | CReboot | CBootload => if rv_eqb (o_ret ob) (RBool true) then false else o_port ob
+                         | _ => o_port ob end in
+       latch_ok (o_err ob) port_after t)
   end.
